@@ -105,16 +105,16 @@ theorem date_explode (E : Env) (hT : E.T.OK) (c : DateCfg) (hc : c.Integers) (s 
   refine ⟨⟨⟨.int y, .int y, fmtInt wy y⟩, ⟨.int m, .int m, fmtInt wm m⟩, ⟨.int d, .int d, fmtInt wd d⟩⟩, ?_, rfl, rfl, rfl, hcomp⟩
   rcases hx with hx | ⟨h, mi, sec, us, hx⟩ <;>
     simp [DateState.step, DateState.toElem, DateCfg.schema, Flatland.C04.setElem, hx, hky, hkm, hkd,
-      setScalar_int_member, fy, fm, fd, DateState.ofElem]
+      Flatland.C04.Proofs.scalarSetTrace_eq, setScalar_int_member, fy, fm, fd, DateState.ofElem]
 
-theorem findSome_map_ok {α} (f : Except Raise SetResult → Option α) (hf : ∀ r, f (.ok r) = none)
-    (rs : List SetResult) : (rs.map Except.ok).findSome? f = none := by
+theorem findSome_map_ok {α β} (f : Except Raise β → Option α) (hf : ∀ r, f (.ok r) = none)
+    (rs : List β) : (rs.map Except.ok).findSome? f = none := by
   induction rs with
   | nil => rfl
   | cons r t ih => simp [List.findSome?, hf, ih]
 
-theorem filterMap_map_ok (f : Except Raise SetResult → Option SetResult) (hf : ∀ r, f (.ok r) = some r)
-    (rs : List SetResult) : (rs.map Except.ok).filterMap f = rs := by
+theorem filterMap_map_ok {β} (f : Except Raise β → Option β) (hf : ∀ r, f (.ok r) = some r)
+    (rs : List β) : (rs.map Except.ok).filterMap f = rs := by
   induction rs with
   | nil => rfl
   | cons r t ih => simp [List.filterMap, hf, ih]
@@ -129,13 +129,27 @@ theorem settled_results (E : Env) (k : Kind) (s : JoinedState) (h : Settled E k 
     obtain ⟨rs, h1, h2⟩ := ih (fun x hx => h x (List.mem_cons_of_mem _ hx))
     exact ⟨r :: rs, by simp [hr, h1], by simp [hu, h2]⟩
 
+theorem settled_traces (E : Env) (k : Kind) (s : JoinedState) (h : Settled E k s) :
+    ∃ rs : List SetResult,
+      s.map (fun st => Flatland.C04.scalarSetTrace E k Flatland.C04.blankState (.str st.u)) =
+        (rs.map fun r => (r.st, r.flag, [(r.flag, r.st)])).map .ok ∧
+      rs.map (·.st.u) = s.map (·.u) := by
+  induction s with
+  | nil => exact ⟨[], rfl, rfl⟩
+  | cons st t ih =>
+    obtain ⟨r, hr, hu⟩ := h st (by simp)
+    obtain ⟨rs, h1, h2⟩ := ih (fun x hx => h x (List.mem_cons_of_mem _ hx))
+    refine ⟨r :: rs, ?_, by simp [hu, h2]⟩
+    simp only [List.map_cons, h1]
+    rw [Flatland.C04.Proofs.scalarSetTrace_eq, hr]
+
 /-- **joined_reset** (partial: `SplitStable`, `NoEmptyTextUnderPrune`; see KF-C18-a / KF-C18-c) —
     setting a JoinedString to its own value reproduces that value. -/
 theorem joined_reset_partial (E : Env) (c : JoinedCfg) (s : JoinedState)
     (hsplit : SplitStable E.T c s) (hprune : NoEmptyTextUnderPrune c s) (hset : Settled E c.member s) :
     ∃ s' flag, joinedSet E c s (.leaf (.str (joinedValue c s))) = .ok (s', some flag) ∧
       joinedValue c s' = joinedValue c s := by
-  obtain ⟨rs, h1, h2⟩ := settled_results E c.member s hset
+  obtain ⟨rs, h1, h2⟩ := settled_traces E c.member s hset
   have hkept : (List.map Native.str (s.map (·.u))).filter (fun v => !(c.prune && !pyTruthy v)) =
       List.map Native.str (s.map (·.u)) := by
     apply List.filter_eq_self.mpr
@@ -152,11 +166,13 @@ theorem joined_reset_partial (E : Env) (c : JoinedCfg) (s : JoinedState)
     simp only [Flatland.C04.setElem]
     unfold SplitStable at hsplit
     simp only [hsplit, hkept]
-    have : List.map (fun v => setScalar E c.member v) (List.map Native.str (List.map (fun x => x.u) s)) = rs.map .ok := by
+    have : List.map (fun v => Flatland.C04.scalarSetTrace E c.member Flatland.C04.blankState v)
+        (List.map Native.str (List.map (fun x => x.u) s)) =
+        (rs.map fun r => (r.st, r.flag, [(r.flag, r.st)])).map .ok := by
       rw [← h1]; simp [List.map_map, Function.comp_def]
     simp only [this]
     rw [findSome_map_ok _ (fun _ => rfl), filterMap_map_ok _ (fun _ => rfl)]
-    simp only [joinedOfElem]
+    simp [joinedOfElem, List.map_map, Function.comp_def, List.all_map]
   · unfold joinedValue
     simp only [List.map_map]
     have : (List.map ((fun x => x.u) ∘ fun x => x.st) rs) = rs.map (·.st.u) := by simp [Function.comp_def]
@@ -299,7 +315,7 @@ theorem joined_reset_empty (E : Env) (c : JoinedCfg)
   · cases hp : c.prune with
     | true => exact ⟨[], true, by simp [pyTruthy, joinedOfElem, Flatland.C04.indexed], rfl⟩
     | false =>
-      refine ⟨[r.st], r.flag, by simp [hr, joinedOfElem], ?_⟩
+      refine ⟨[r.st], r.flag, by simp [Flatland.C04.Proofs.scalarSetTrace_eq, hr, joinedOfElem], ?_⟩
       simp [joinedValue, joinStr, hu]
 
 /-- **joined_reset** for the common configuration, every state including the empty one -/
@@ -342,106 +358,161 @@ theorem multivalue_first (s : MultiState) :
 
 example : multiU [⟨.none, .int 3, ['3']⟩, ⟨.none, .none, ['x']⟩] = ['3'] := rfl
 
-/-! ### Ref -/
+/-! ### Ref: the path is resolved against the current tree -/
 
-/-- every `read` in the history returns the state of the element now at the target path -/
-def ReadsCurrent (E : Env) (k : Kind) (w : Writable) : RefState → List RefOp → Bool
+/-- every Ref read of the history returns value and text of the element that the path denotes in
+    the tree at that moment (`treeOf` after the step) -/
+def ReadsDenoted {σ : Type} (step : σ → TOp → StepOut σ) (treeOf : σ → Tree) (path : List PStep) :
+    σ → List TOp → Bool
   | _, [] => true
   | s, op :: rest =>
-    match s.step E k w op with
+    match step s op with
     | .error _ => true
-    | .ok (s', _, rd) => (rd == none || rd == some (s'.t.value, s'.t.u)) && ReadsCurrent E k w s' rest
+    | .ok (s', _, rd) =>
+      (rd == none || rd == denoted (treeOf s') path) && ReadsDenoted step treeOf path s' rest
 
-theorem step_read (E : Env) (k : Kind) (w : Writable) (s s' : RefState) (op : RefOp)
-    (ret : Option Bool) (rd : Option (Native × Str)) (h : s.step E k w op = .ok (s', ret, rd)) :
-    rd = none ∨ rd = some (s'.t.value, s'.t.u) := by
+theorem liveStep_read (E : Env) (w : Writable) (path : List PStep) (s s' : TState) (op : TOp)
+    (ret : Option Bool) (rd : Option (Native × Str)) (h : liveStep E w path s op = .ok (s', ret, rd)) :
+    rd = none ∨ rd = denoted s'.tree path := by
   cases op with
-  | read =>
-    simp only [RefState.step, Except.ok.injEq, Prod.mk.injEq] at h
-    obtain ⟨rfl, _, rfl⟩ := h
-    exact Or.inr rfl
-  | targetSet x =>
-    simp only [RefState.step] at h
+  | refRead =>
+    simp only [liveStep] at h
     split at h
+    · rename_i id k st hres
+      simp only [Except.ok.injEq, Prod.mk.injEq] at h
+      obtain ⟨rfl, _, rfl⟩ := h
+      right; simp [denoted, hres]
     · simp at h
-    · simp only [Except.ok.injEq, Prod.mk.injEq] at h; exact Or.inl h.2.2.symm
-  | subSet x =>
-    simp only [RefState.step] at h
-    split at h
-    · simp at h
-    · simp only [Except.ok.injEq, Prod.mk.injEq] at h; exact Or.inl h.2.2.symm
   | refSet x =>
-    simp only [RefState.step] at h
+    left
+    simp only [liveStep] at h
     split at h
+    · split at h
+      · simp at h
+      · simp at h
+      · split at h
+        · simp at h
+        · split at h
+          · split at h
+            · simp only [Except.ok.injEq, Prod.mk.injEq] at h; exact h.2.2.symm
+            · simp at h
+          · simp only [Except.ok.injEq, Prod.mk.injEq] at h; exact h.2.2.symm
     · simp at h
-    · cases w <;> simp only at h
-      · split at h
-        · simp at h
-        · simp only [Except.ok.injEq, Prod.mk.injEq] at h; exact Or.inl h.2.2.symm
-      · split at h
-        · simp at h
-        · simp only [Except.ok.injEq, Prod.mk.injEq] at h; exact Or.inl h.2.2.symm
-      · simp at h
-    · cases w <;> simp only at h
-      · split at h
-        · simp at h
-        · simp only [Except.ok.injEq, Prod.mk.injEq] at h; exact Or.inl h.2.2.symm
-      · split at h
-        · simp at h
-        · simp only [Except.ok.injEq, Prod.mk.injEq] at h; exact Or.inl h.2.2.symm
-      · simp at h
+  | leafSet p x => left; simp only [liveStep] at h; split at h <;> simp at h; exact h.2.2.symm
+  | dictSet p v => left; simp only [liveStep] at h; split at h <;> simp at h; exact h.2.2.symm
+  | listSet p v => left; simp only [liveStep] at h; split at h <;> simp at h; exact h.2.2.symm
+  | listInsert p i v => left; simp only [liveStep] at h; split at h <;> simp at h; exact h.2.2.symm
+  | listDel p i => left; simp only [liveStep] at h; split at h <;> simp at h; exact h.2.2.symm
 
-/-- **ref_proxy** (full since fix b196482; holds by construction of the model, where reading a Ref
-    *is* reading the element now at the target path — whether the code does that is what the
-    correspondence and the oracle check) — along every history of target sets, container sets
-    (which replace the target element), Ref reads and Ref sets, in every writable mode, a Ref's
-    value and text are those of the element at the target path. -/
-theorem ref_proxy (E : Env) (k : Kind) (w : Writable) (s : RefState) (ops : List RefOp) :
-    ReadsCurrent E k w s ops = true := by
+/-- **ref_proxy_history** — for every form tree, target path, writable mode and history of
+    operations on the tree (scalar sets, `Dict.set` that rebuilds members, list set / insert /
+    delete before or at the target position, Ref reads, Ref writes), every Ref read returns the
+    value and text of the element that the path denotes in the tree at that moment. -/
+theorem ref_proxy_history (E : Env) (w : Writable) (path : List PStep) (s : TState) (ops : List TOp) :
+    ReadsDenoted (liveStep E w path) (·.tree) path s ops = true := by
   induction ops generalizing s with
   | nil => rfl
   | cons op rest ih =>
-    simp only [ReadsCurrent]
-    cases hstep : s.step E k w op with
+    simp only [ReadsDenoted]
+    cases hstep : liveStep E w path s op with
     | error e => rfl
     | ok res =>
       obtain ⟨s', ret, rd⟩ := res
       simp only [Bool.and_eq_true, Bool.or_eq_true, beq_iff_eq]
-      exact ⟨step_read E k w s s' op ret rd hstep, ih s'⟩
+      exact ⟨liveStep_read E w path s s' op ret rd hstep, ih s'⟩
 
-/-- a write through a writable Ref lands in the element at the target path -/
-theorem ref_write_through (E : Env) (k : Kind) (s s' : RefState) (x v : Native) (u : Str)
+/-! what "denotes at that moment" means after a write: the replaced element is found again -/
+
+theorem child_setChild (t c c' : Tree) (st : PStep) (h : t.child st = some c) :
+    (t.setChild st c').child st = some c' := by
+  cases t with
+  | leaf id k s => cases st <;> simp [Tree.child] at h
+  | dict names ms =>
+    cases st with
+    | index i => simp [Tree.child] at h
+    | name n =>
+      simp only [Tree.child] at h
+      cases hn : nameIdx names n with
+      | none => simp [hn] at h
+      | some i =>
+        simp only [hn, Option.bind_some] at h
+        have hi : i < ms.length := by
+          rcases List.getElem?_eq_some_iff.mp h with ⟨hlt, _⟩; exact hlt
+        simp [Tree.setChild, Tree.child, hn, hi]
+  | list k ms =>
+    cases st with
+    | name n => simp [Tree.child] at h
+    | index i =>
+      simp only [Tree.child] at h
+      have hi : i < ms.length := by
+        rcases List.getElem?_eq_some_iff.mp h with ⟨hlt, _⟩; exact hlt
+      simp [Tree.setChild, Tree.child, hi]
+
+theorem resolve_replaceAt (t t' new : Tree) (p : List PStep) (h : t.replaceAt p new = some t') :
+    t'.resolve p = some new := by
+  induction p generalizing t t' with
+  | nil => simp [Tree.replaceAt] at h; subst h; rfl
+  | cons st rest ih =>
+    simp only [Tree.replaceAt] at h
+    cases hc : t.child st with
+    | none => simp [hc] at h
+    | some c =>
+      simp only [hc, Option.map_eq_some_iff] at h
+      obtain ⟨c', hc', rfl⟩ := h
+      simp only [Tree.resolve, child_setChild t c c' st hc]
+      exact ih c c' hc'
+
+/-- **ref_write_through** — a successful write through a writable Ref is what the path denotes
+    afterwards (and hence what the next Ref read returns) -/
+theorem ref_write_through (E : Env) (path : List PStep) (s s' : TState) (x v : Native) (u : Str)
+    (id : Nat) (k : Kind) (st : SState) (hres : s.tree.resolve path = some (.leaf id k st))
     (ha : adapt E k x = .ok (some v)) (hu : uOfValue E k v = .ok u)
-    (h : s.step E k .yes (.refSet x) = .ok (s', some true, none)) : s'.t.value = v ∧ s'.t.u = u := by
-  simp [RefState.step, ha, hu, RefState.write] at h
-  subst h
-  exact ⟨rfl, rfl⟩
+    (h : liveStep E .yes path s (.refSet x) = .ok (s', some true, none)) :
+    denoted s'.tree path = some (v, u) := by
+  simp only [liveStep, hres, ha, hu, beq_self_eq_true, if_true] at h
+  split at h
+  · rename_i t ht
+    simp only [Except.ok.injEq, Prod.mk.injEq] at h
+    obtain ⟨rfl, _⟩ := h
+    simp [denoted, resolve_replaceAt _ _ _ _ ht]
+  · simp at h
 
-/-- the clause as a closed statement: in every history -/
-def C18_Full_ref : Prop :=
-  ∀ (k : Kind) (w : Writable) (ops : List RefOp),
-    ReadsCurrent plainEnv k w ⟨Flatland.C04.blankState⟩ ops = true
+/-! the counter-model: a Ref that keeps the element it found first (the code before fix b196482) -/
 
-theorem C18_ref_holds : C18_Full_ref := fun k w ops => ref_proxy plainEnv k w _ ops
+def refForm (k : Kind) : TState :=
+  ⟨.dict ["sub".toList, "o".toList]
+    [.dict ["t".toList] [.leaf 0 k Flatland.C04.blankState], .leaf 1 (.string true) Flatland.C04.blankState], 2⟩
 
-/-- the former witness of KF-C18-b: `sub.set({'t': '1'}); r.value; sub.set({'t': '2'}); r.value`
-    now reads '2' -/
-example :
-    ((RefState.mk Flatland.C04.blankState).step plainEnv (.string true) .ignore (.subSet (.str ['1']))).toOption.bind
-      (fun r => (r.1.step plainEnv (.string true) .ignore (.subSet (.str ['2']))).toOption.bind
-        (fun r => (r.1.step plainEnv (.string true) .ignore .read).toOption.map (·.2.2))) =
-      some (some (.str ['2'], ['2'])) := by
+def refPath : List PStep := [.name "sub".toList, .name "t".toList]
+
+/-- KF-C18-b as a counter-model: with a cached target, `sub.set({'t': '1'}); r.value;
+    sub.set({'t': '2'}); r.value` reads '1' while the path denotes the element holding '2' — so
+    `ref_proxy_history` is a statement about resolving at every access, not a definition -/
+theorem cachedRef_fails :
+    ¬ ∀ (c : CachedState) (ops : List TOp),
+        ReadsDenoted (cachedStep plainEnv refPath) (·.base.tree) refPath c ops = true := by
+  intro h
+  have := h ⟨refForm (.string true), none⟩
+    [.dictSet [.name "sub".toList] [("t".toList, .str ['1'])], .refRead,
+     .dictSet [.name "sub".toList] [("t".toList, .str ['2'])], .refRead]
+  revert this
   decide
 
-/-- **ref_proxy**, Ref into a List: whenever a read of `Ref('../l/0')` completes it returns the value
-    and text of the member now first in the list (whatever insertions, deletions and sets moved there) -/
-theorem ref_list_proxy (E : Env) (k : Kind) (w : Writable) (s s' : List SState) (ret : Option Bool)
-    (p : Native × Str) (h : refListStep E k w s .read = .ok (s', ret, some p)) :
-    s' = s ∧ ∃ m rest, s = m :: rest ∧ p = (m.value, m.u) := by
-  cases s with
-  | nil => simp [refListStep] at h
-  | cons m rest =>
-    simp only [refListStep, Except.ok.injEq, Prod.mk.injEq, Option.some.injEq] at h
-    exact ⟨h.1.symm, m, rest, rfl, h.2.2.symm⟩
+/-- the same history under the live Ref reads '2' -/
+example :
+    ReadsDenoted (liveStep plainEnv .ignore refPath) (·.tree) refPath (refForm (.string true))
+      [.dictSet [.name "sub".toList] [("t".toList, .str ['1'])], .refRead,
+       .dictSet [.name "sub".toList] [("t".toList, .str ['2'])], .refRead] = true := by
+  decide
+
+/-- a Ref to list position 1 follows insertions and deletions before it -/
+example :
+    let start : TState := ⟨.dict ["l".toList] [.list (.string true) []], 0⟩
+    let path : List PStep := [.name "l".toList, .index 1]
+    (((liveStep plainEnv .ignore path start (.listSet [.name "l".toList] [.str ['a'], .str ['b'], .str ['c']])).toOption.bind
+      fun r => (liveStep plainEnv .ignore path r.1 (.listInsert [.name "l".toList] 0 (.str ['z']))).toOption).bind
+      fun r => (liveStep plainEnv .ignore path r.1 .refRead).toOption.map (·.2.2)) =
+      some (some (.str ['a'], ['a'])) := by
+  decide
 
 end Flatland.C18.Proofs
